@@ -15,18 +15,38 @@ import (
 // VerifC04Render: a render writes nothing shared: bindings, the parsed template (including
 // the variables its tag closures captured at compile time), the engine configuration, globals.
 func VerifC04Render() {
-	i := nd.Choice(len(corpus))
+	i := nd.Choice(len(corpus) + len(c04Extra))
 	e := NewEngine()
-	tpl, perr := e.ParseString(corpus[i])
+	src := ""
+	if i < len(corpus) {
+		src = corpus[i]
+	} else {
+		src = c04Extra[i-len(corpus)]
+	}
+	tpl, perr := e.ParseString(src)
 	nd.Assert(perr == nil, "corpus-parses")
 	if perr != nil {
 		return
 	}
 	b := corpusBindings()
+	if i >= len(corpus) {
+		// a caller-supplied value shaped like a loop record (it is data, shared by the renders), and
+		// dates given as strings in several spellings
+		b["forloop"] = map[string]any{".cycles": map[string]int{"": 1}, "index": 7}
+		b["dstr"] = "2017-03-05 10:00:00 +0200"
+	}
 	nd.BeginRender()
 	_, _ = tpl.RenderString(b)
 	nd.EndRender()
 	nd.Reach("C04.render")
+}
+
+// c04Extra: templates whose render may fail (a cycle outside a loop) or that convert dates spelled
+// as strings; rendered with the shared bindings extended as in VerifC04Render.
+var c04Extra = []string{
+	"{% cycle 'a', 'b' %}",
+	"{% for i in (1..2) %}{% cycle 'a', 'b' %}{% endfor %}{% cycle 'a', 'b' %}",
+	"{{ 'March 5, 2017' | date: '%Y' }}|{{ '2017-03-05T10:00:00+02:00' | date: '%H' }}|{{ dstr | date: '%m' }}|{{ '2017-03-05T10:00:00Z' | date: '%d' }}",
 }
 
 // VerifC04Parse: parsing writes nothing shared (engine configuration, package-level state).
